@@ -31,8 +31,7 @@ META = dict(
 
 TIMEOUT = 5
 NOW = ['--now', '2021/06/15']
-SIGNAMES = {getattr(signal, n).value: n for n in dir(signal) if n.startswith('SIG') and not n.startswith('SIG_')
-            and isinstance(getattr(signal, n), signal.Signals)}
+SIGNAMES = {s_.value: s_.name for s_ in signal.Signals}
 
 
 # ------------------------------------------------------------------------------ running ledger
@@ -76,10 +75,10 @@ def materialise(ctx, case, tag):
     return args, d
 
 
-def run_one(binary, args, stdin, env, cwd=None):
+def run_one(binary, args, stdin, env, cwd=None, factor=1):
     cmd = [binary, '--init-file', '/dev/null'] + args
     try:
-        p = subprocess.run(cmd, input=stdin if stdin is not None else b'', env=env, timeout=TIMEOUT, cwd=cwd,
+        p = subprocess.run(cmd, input=stdin if stdin is not None else b'', env=env, timeout=TIMEOUT * factor, cwd=cwd,
                            stdout=subprocess.PIPE, stderr=subprocess.PIPE)
     except subprocess.TimeoutExpired as e:
         return 'timeout', (e.stdout or b'')[:4000], (e.stderr or b'')[:4000]
@@ -99,11 +98,12 @@ def run_cases(ctx, cases, tag, binary=None, env=None):
         futs = [ex.submit(run_one, binary, a, c.stdin, env, d) for c, a, d in jobs]
         for (c, a, d), f in zip(jobs, futs):
             c.result = f.result()
-    # a timeout seen under full load is confirmed by running the case again on its own
+    # a timeout seen under full load is confirmed by running the case again with few
+    # neighbours and twice the time
     again = [(c, a, d) for c, a, d in jobs if c.result[0] == 'timeout']
     if again:
         with concurrent.futures.ThreadPoolExecutor(max_workers=4) as ex:
-            futs = [ex.submit(run_one, binary, a, c.stdin, env, d) for c, a, d in again]
+            futs = [ex.submit(run_one, binary, a, c.stdin, env, d, 2) for c, a, d in again]
             for (c, a, d), f in zip(again, futs):
                 c.result = f.result()
     for c, a, d in jobs:
@@ -634,6 +634,11 @@ def long_tokens(ctx, res, binary=None, env=None, sanitizer=False):
     for t in ['C 1 a = 2 a\n']:
         cases.append(Case('commodity-conversion-self', t + '2020/01/01 p\n  A  2 a\n  A  $2\n  B\n', ['bal']))
     cases.append(Case('commodity-conversion', 'C 1.00 Kb = 1024 b\nC 1.00 Mb = 1024 Kb\n2020/01/01 p\n  A  2000000 b\n  B\n', ['bal']))
+    # the xact/entry command adds the drafted transaction to the journal after the parse context is gone
+    cases.append(Case('draft-auto-xact-check', '= /Checking/\n  check account =~ /Foo/\n2010/06/24 Sample\n  Expenses:Food  $100\n  Assets:Checking\n',
+                      ['xact', 'Sample'] + NOW))
+    cases.append(Case('draft-auto-xact', '= /Checking/\n  (Budget)  $1\n2010/06/24 Sample\n  Expenses:Food  $100\n  Assets:Checking\n',
+                      ['xact', 'Sample'] + NOW))
     # options that reach through the temporary transaction of generated budget postings
     bj = '~ Monthly\n  Expenses:Rent  $550.00\n  Assets\n\n2020/01/15 p\n  Expenses:Rent  $500.00\n  Assets\n'
     for extra in (['--anon'], ['--account', 'payee'], ['--payee', 'account'], ['--pivot', 'tag'], []):
@@ -791,14 +796,24 @@ def line_kind(journal):
     return 'empty'
 
 
-def reduce_case(ctx, case, want, budget=40):
+def symptom(case, sanitizer=False):
+    """what is kept while reducing: the class of the first violation (without the construct)"""
+    vs = judge(case, sanitizer)
+    if not vs:
+        return None
+    k = vs[-1][0] if sanitizer and vs[-1][0].startswith('sanitizer:') else vs[0][0]
+    parts = k.split(':')
+    return ':'.join(parts[:2]) if parts[0] in ('signal', 'sanitizer') else parts[0]
+
+
+def reduce_case(ctx, case, want, budget=40, binary=None, env=None, sanitizer=False):
     """line-based reduction of the journal, then of the options, keeping the same symptom"""
     global TIMEOUT
     if case.journal is None:
         return
     saved = TIMEOUT
     if want == 'timeout':
-        TIMEOUT, budget = 0.7, 12
+        TIMEOUT, budget = (3 if sanitizer else 0.7), 12
     try:
         j = case.journal if isinstance(case.journal, bytes) else case.journal.encode('latin-1')
         lines = j.split(b'\n')
@@ -806,8 +821,8 @@ def reduce_case(ctx, case, want, budget=40):
 
         def still(lines_, args_):
             c2 = Case(case.construct, b'\n'.join(lines_), args_, case.stdin, files=case.files, repl=case.repl)
-            run_cases(ctx, [c2], 'red')
-            return obs_class(c2) == want
+            run_cases(ctx, [c2], 'red', binary, env)
+            return symptom(c2, sanitizer) == want
         used = 0
         # options first (cheap, and they name the construct)
         i = 1
@@ -841,6 +856,11 @@ def reduce_case(ctx, case, want, budget=40):
         TIMEOUT = saved
 
 
+def c_rerun(ctx, c, binary, env):
+    run_cases(ctx, [c], 'rerun', binary, env)
+    return c
+
+
 def mutation(ctx, res, n, binary=None, env=None, sanitizer=False, tag='mut'):
     rng = ctx.rng
     cp = corpus()
@@ -869,9 +889,10 @@ def mutation(ctx, res, n, binary=None, env=None, sanitizer=False, tag='mut'):
         vs = judge(c, sanitizer)
         if vs:
             # attribute the symptom to a construct: reduce the journal, key by what is left
-            want = obs_class(c)
-            if not sanitizer and (want.startswith('signal') or want == 'timeout'):
-                reduce_case(ctx, c, want)
+            want = symptom(c, sanitizer)
+            if want and want != 'error-with-status-0':
+                reduce_case(ctx, c, want, binary=binary, env=env, sanitizer=sanitizer)
+                vs = judge(c_rerun(ctx, c, binary, env), sanitizer) or vs
             kind = line_kind(c.journal if isinstance(c.journal, bytes) else (c.journal or '').encode('latin-1'))
             optsig = '+'.join(sorted(set(a for a in c.args[1:] if a.startswith('-') and a != '--now'))) or 'no-options'
             vs = [(re.sub(r'mutant:(\w+)$', lambda m_: 'mutant:%s:%s:%s' % (m_.group(1), kind, optsig), k), d, o, r) for k, d, o, r in vs]
@@ -894,7 +915,7 @@ def asan_build(ctx):
     os.makedirs(b)
     flags = '-fsanitize=address,undefined -fno-sanitize-recover=all -Wno-error -D%s -O1' % lib.GUARD
     rc, out = lib.sh(['cmake', '-G', 'Ninja', '-S', lib.REPO, '-B', b, '-DCMAKE_BUILD_TYPE=Release', '-DCMAKE_CXX_FLAGS=' + flags,
-                      '-DCMAKE_CXX_FLAGS_RELEASE=', '-DBUILD_LIBRARY=ON', '-DBUILD_DOCS=OFF', '-DUSE_PYTHON=OFF', '-DUSE_GPGME=OFF'], timeout=600)
+                      '-DCMAKE_CXX_FLAGS_RELEASE=-DNDEBUG', '-DBUILD_LIBRARY=ON', '-DBUILD_DOCS=OFF', '-DUSE_PYTHON=OFF', '-DUSE_GPGME=OFF'], timeout=600)
     if rc != 0:
         lib.log('C11: sanitizer configure failed:\n' + out[-1500:])
         return None, True
@@ -922,7 +943,7 @@ def sanitizer_tier(ctx, res, sites):
         long_tokens(ctx, sub, binary, env, sanitizer=True)
         periods_s = lib.Result()
         nesting_light(ctx, sub, binary, env)
-        mutation(ctx, sub, ctx.scale(0, 3000), binary, env, sanitizer=True, tag='smut')
+        mutation(ctx, sub, ctx.scale(0, 1500), binary, env, sanitizer=True, tag="smut")
     finally:
         if owned:
             shutil.rmtree(os.path.join(ctx.workdir, 'asan'), ignore_errors=True)
@@ -972,7 +993,7 @@ def run(ctx, light=False):
               ('nesting', lambda: nesting(ctx, res)), ('division', lambda: division(ctx, res)),
               ('periods', lambda: periods(ctx, res)), ('truncated', lambda: truncated(ctx, res)),
               ('long_tokens', lambda: long_tokens(ctx, res)),
-              ('mutation', lambda: mutation(ctx, res, ctx.scale(4000, 40000)))]
+              ('mutation', lambda: mutation(ctx, res, ctx.scale(4000, 20000)))]
     if ctx.tier == 'thorough' and not light:
         phases.append(('sanitizer', lambda: sanitizer_tier(ctx, res, sites)))
     res.extra['phase_wall_s'] = {}
